@@ -439,12 +439,12 @@ func c04R4(c *kit.Ctx, m *storeModel, r4 *kit.Rule) {
 	// which id parameter is the parent: the one bound to column `up` of INSERT INTO edges
 	var parent *types.Var
 	for _, s := range m.sql.Sites {
-		if s.F.Root() != f || !s.HasVerb("INSERT", "edges") || len(s.Stmts) == 0 {
+		if !ew.owns(s) || !s.HasVerb("INSERT", "edges") || len(s.Stmts) == 0 {
 			continue
 		}
 		for i, col := range s.Stmts[0].Cols {
 			if col == "up" && i < len(s.Args) {
-				parent = traceToParam(f, s.Args[i], ew.IDs)
+				parent = ew.idParam(s, s.Args[i])
 			}
 		}
 		if parent != nil {
@@ -456,7 +456,8 @@ func c04R4(c *kit.Ctx, m *storeModel, r4 *kit.Rule) {
 	}
 	st := &kit.Std{F: f}
 	// setters and small helpers are followed (the cached root id may be set through one)
-	st.ShouldInline = func(cf *kit.Func, call *ast.CallExpr) bool { return txParamOf(cf) == nil }
+	// (and the body function, when the writer hands the transaction to one)
+	st.ShouldInline = func(cf *kit.Func, call *ast.CallExpr) bool { return txParamOf(cf) == nil || cf == ew.Body }
 	st.Eval.Atom = func(e ast.Expr) (string, bool, bool) {
 		isP := func(x ast.Expr) bool { return st.ObjOf(x) == types.Object(parent) }
 		if neg, ok := eqAtom(e, isP, constStringIs(info, "root")); ok {
@@ -471,7 +472,13 @@ func c04R4(c *kit.Ctx, m *storeModel, r4 *kit.Rule) {
 				return []kit.S{s.Set("ins", "1")}
 			}
 			if site.HasVerb("UPDATE", "meta") && contains(site.Stmts[0].Cols, "root_id") {
-				return []kit.S{s.Set("meta", "1")}
+				s = s.Set("meta", "1")
+				if len(site.Args) == 1 {
+					if o := kit.ObjOf(info, st.Resolve(site.Args[0])); o != nil {
+						s = s.Set("metaobj", kit.VarID(o))
+					}
+				}
+				return []kit.S{s}
 			}
 		}
 		if kit.CallIs(info, call, qCommit) {
@@ -485,7 +492,7 @@ func c04R4(c *kit.Ctx, m *storeModel, r4 *kit.Rule) {
 	}
 	var metaArg ast.Expr
 	for _, sx := range m.sql.Sites {
-		if sx.F.Root() == f && sx.HasVerb("UPDATE", "meta") && len(sx.Stmts) > 0 && contains(sx.Stmts[0].Cols, "root_id") && len(sx.Args) == 1 {
+		if ew.owns(sx) && sx.HasVerb("UPDATE", "meta") && len(sx.Stmts) > 0 && contains(sx.Stmts[0].Cols, "root_id") && len(sx.Args) == 1 {
 			metaArg = sx.Args[0]
 		}
 	}
@@ -494,7 +501,14 @@ func c04R4(c *kit.Ctx, m *storeModel, r4 *kit.Rule) {
 		if as, ok := n.(*ast.AssignStmt); ok && m.rootField != nil {
 			for i, l := range as.Lhs {
 				if sel, ok := ast.Unparen(l).(*ast.SelectorExpr); ok && kit.ObjOf(info, sel) == types.Object(m.rootField) {
-					if metaArg != nil && i < len(as.Rhs) && !kit.SameExpr(info, st.Resolve(as.Rhs[i]), metaArg) {
+					same := metaArg == nil || i >= len(as.Rhs) || kit.SameExpr(info, st.Resolve(as.Rhs[i]), metaArg)
+					if !same && s.Get("metaobj") != "" {
+						// the statement ran in the body function: compare what both denote in the writer
+						if o := kit.ObjOf(info, st.Resolve(as.Rhs[i])); o != nil && kit.VarID(o) == s.Get("metaobj") {
+							same = true
+						}
+					}
+					if !same {
 						cacheBad = "the cached root id is set to `" + f.Str(st.Resolve(as.Rhs[i])) + "` while the store records `" + f.Str(metaArg) + "`"
 					}
 					s = s.Set("cached", "1")
